@@ -17,7 +17,7 @@ from vlib import log
 LET = {"Display": "", "Debug": "?", "LowerHex": "x", "Pointer": "p", "Octal": "o", "Binary": "b", "UpperHex": "X",
        "LowerExp": "e", "UpperExp": "E"}
 ATTR = {"Display": "display", "Debug": "debug", "LowerHex": "lower_hex", "Pointer": "pointer"}
-PRELUDE = "use core::fmt;\npub struct NoFmt;\npub struct W<T>(pub T);\n" + "".join(
+PRELUDE = "use core::fmt;\n#[derive(Clone)] pub struct NoFmt;\npub struct W<T>(pub T);\n" + "".join(
     f"impl<T: fmt::{t}> fmt::{t} for W<T> {{ fn fmt(&self, f: &mut fmt::Formatter<'_>) -> fmt::Result {{ fmt::{t}::fmt(&self.0, f) }} }}\n"
     for t in LET) + 'pub fn report(k: &str) { println!("OBS {{\\"k\\": {:?}, \\"ok\\": true}}", k); }\n'
 
@@ -96,18 +96,20 @@ def build(c, key):
         body = "(" + ", ".join(f"{fattrs[i]}{tys[i]}" for i in range(len(names))) + ")"
     lvl = c["level"]
     cattr = f"#[{a}({vlib.rust_str(lit)}{args})]\n" if c["hasAttr"] else ""
+    # a third of the generic cases carry a where-clause of the user's own (the inferred bounds must be ADDED to it)
+    wh = (" where " + ", ".join(f"{p}: Clone" for p in params)) if (params and vlib.seeded_pick(key, 31, 3) == 0) else ""
     if lvl in ("struct", "debug_fields"):
-        item = f"{cattr}pub struct S{g} {body}" + ("" if named else ";")
+        item = (f"{cattr}pub struct S{g}{wh} {body}" if named else f"{cattr}pub struct S{g} {body}{wh};")
         name = "S"
     elif lvl == "variant":
-        item = f"pub enum S{g} {{ {cattr}V{body} }}"
+        item = f"pub enum S{g}{wh} {{ {cattr}V{body} }}"
         name = "S"
     elif lvl == "shared_default":
-        item = f"{cattr}pub enum S{g} {{ V{body} }}"
+        item = f"{cattr}pub enum S{g}{wh} {{ V{body} }}"
         name = "S"
     else:  # shared_wrap
         wl = "{_variant} " + lit
-        item = f"#[{a}({vlib.rust_str(wl)}{args})]\npub enum S{g} {{ V{body} }}"
+        item = f"#[{a}({vlib.rust_str(wl)}{args})]\npub enum S{g}{wh} {{ V{body} }}"
         name = "S"
     return item, tys, params
 
